@@ -1,6 +1,7 @@
 import Driver.Util
 import Driver.X86
 import Driver.Arm
+import Driver.Hist
 namespace Driver
 
 def dispatch (line : String) : String :=
@@ -18,6 +19,8 @@ def dispatch (line : String) : String :=
       | "a64entry" => handleA64Entry args obs
       | "a64long" => handleA64Long args obs
       | "a32patch" => handleA32Patch args obs
+      | "hist" => handleHist rest
+      | "cycles" => handleCycles args obs
       | _ => bad ("unknown-tag:" ++ tag)
     v.render
 
